@@ -145,3 +145,56 @@ def split (fields : List Field) (target : Nat) : PRes (List BReq) :=
   mkRequests (targetFC target) (groups.flatMap batchGroup)
 
 end Modbus.Model
+
+namespace Modbus.Model
+
+/-- `Field.ExtractFrom(registers)` -/
+def Field.acc (f : Field) : Option Acc :=
+  match f.type with
+  | 1 => some (.bit f.bit)
+  | 2 => some (.byte f.fromHigh)
+  | 3 => some (.u8 f.fromHigh)
+  | 4 => some (.i8 f.fromHigh)
+  | 5 => some .u16
+  | 6 => some .i16
+  | 7 => some (.u32o f.order)
+  | 8 => some (.i32o f.order)
+  | 9 => some (.u64o f.order)
+  | 10 => some (.i64o f.order)
+  | 11 => some (.f32o f.order)
+  | 12 => some (.f64o f.order)
+  | 13 => some (.stro f.length f.order)
+  | _ => none
+
+def Field.extractFrom (f : Field) (r : Registers) : PRes Val × Slice :=
+  match f.acc with
+  | some a => r.access a f.addr
+  | none => (.err .plain, r.data)
+
+/-- result of `ExtractFields`: Go returns `([]FieldValue, error)`;
+`all` = (values, nil), `some_` = (values, ErrorFieldExtractHadError), `failed` = (nil, err) -/
+inductive Extracted where
+  | all (vs : List (Field × PRes Val))
+  | some_ (vs : List (Field × PRes Val))
+  | failed
+  | panicked
+
+/-- the loop of `extractRegisterFields` -/
+def extractLoop (lenient : Bool) (r : Registers) : List Field → List (Field × PRes Val) → Bool → Extracted
+  | [], acc, hadErr => if hadErr then .some_ acc else .all acc
+  | f :: rest, acc, hadErr =>
+    let (res, d') := f.extractFrom r
+    match res with
+    | .panic => .panicked
+    | .err e => if !lenient then .failed else extractLoop lenient { r with data := d' } rest (acc ++ [(f, .err e)]) true
+    | .ok v => extractLoop lenient { r with data := d' } rest (acc ++ [(f, .ok v)]) hadErr
+
+/-- `BuilderRequest.ExtractFields(response, continueOnExtractionErrors)` for register responses:
+`payload` is the response's `Data` (a sub-slice of the received frame) -/
+def extractRegisterFields (b : BReq) (payload : Slice) (lenient : Bool) : Extracted :=
+  match newRegisters payload b.start with
+  | .ok r => extractLoop lenient r b.fields [] false
+  | .err _ => .failed
+  | .panic => .panicked
+
+end Modbus.Model
